@@ -336,6 +336,31 @@ def run(ctx):
                 ctx.violation(what="wrong type not rejected with TypeError / something stored", cls=acls.__name__, call=label,
                               observed=show(o) + f" state={[x.ticks for x in a]}", required="TypeError, array unchanged")
             ctx.case(("type", acls.__name__, label))
+        # one wrong-typed item at every position of the replacement of every small slice assignment / extension / insertion point: TypeError,
+        # and the array holds what it held (nothing overwritten, inserted or removed before the item was looked at)
+        bads = [7, "x", None, other.from_ticks(1), 1.5]
+        for n0 in (0, 1, 3, 6):
+            for st, sp, se in [(i, j, None) for i in range(0, n0 + 1) for j in range(0, n0 + 2)] + [(0, None, 2), (None, None, -1), (1, None, 2)]:
+                for m in range(1, 6):
+                    for pos in range(m):
+                        a4 = acls([cls.from_ticks(100 + i) for i in range(n0)])
+                        repl = [cls.from_ticks(10 + i) for i in range(m)]
+                        repl[pos] = bads[(n0 + m + pos) % len(bads)]
+                        o = outcome(lambda: a4.__setitem__(slice(st, sp, se), repl if (m + pos) % 2 else iter(repl)))
+                        ctx.case(("bad-item-slice", acls.__name__, n0, st, sp, se, m, pos))
+                        if o[:2] != ("err", "TypeError") or [x.ticks for x in a4] != [100 + i for i in range(n0)]:
+                            ctx.violation(what="slice assignment with one wrong-typed item", cls=acls.__name__, length=n0, slice=f"[{st}:{sp}:{se}]", replacement_length=m, bad_item_at=pos,
+                                          bad_item=repr(repl[pos])[:40], observed=show(o)[:100] + f" state={[x.ticks for x in a4]}", required="TypeError, array unchanged")
+                            break
+                    else:
+                        continue
+                    break
+                else:
+                    continue
+                break
+            else:
+                continue
+            break
         b = acls([cls.from_ticks(i) for i in range(3)])
         if not (a == b) or (a == acls([cls.from_ticks(0)])) or [x.ticks for x in iter(a)] != [0, 1, 2] or list(reversed(a))[0].ticks != 2:
             ctx.violation(what="== / iteration", cls=acls.__name__, observed="differs", required="element-wise equality, list order")
